@@ -174,3 +174,18 @@ Proof.
   split; [|vm_compute; reflexivity].
   eexists. eexists. split; [vm_compute; reflexivity|]. split; [vm_compute; reflexivity|]. vm_compute. discriminate.
 Qed.
+
+(** ---- tie to the source by translation: the inner search loop of get_multiplier_sequence
+    (`while p >= 0: if target % resn[p] == 0: pred[i] = p; mult[i] = target // resn[p]; break / else: p -= 1`) is
+    translated from _reduce.py on every run (tools/py2v.py -> Gen.multseq_scan, started at Gen.multseq_start i = i - 1);
+    what it computes for position i is the model's (pred[i], mult[i]).  The statements around the loop (base set, sorted
+    union, -1 initialisation, the final derivability check) are pinned: Gen.multseq_source_pins exists only if they are
+    unchanged. *)
+From Cooler Require Import Gen.Translated Proofs.GenBridgeZoom.
+Theorem C09_source_search_loop_is_model : forall resn i, (i < length resn)%nat ->
+  Gen.multseq_scan (S i) resn (nth i resn 0) (Gen.multseq_start (Z.of_nat i)) = pred_mult resn i.
+Proof. exact gen_multseq_is_pred_mult. Qed.
+Print Assumptions C09_source_search_loop_is_model.
+Theorem C09_source_pins : Gen.multseq_source_pins = true.
+Proof. exact gen_multseq_pins. Qed.
+Print Assumptions C09_source_pins.
